@@ -427,7 +427,7 @@ class Worker:
             if not self._running:
                 return None
 
-            if addr in self._cancelled_task_ids or addr not in self._tasks:
+            if addr not in self._tasks:
                 # When a task is cancelled on the worker it is not removed
                 # from the ready queue because it is much cheaper to just
                 # discard cancelled tasks as they come out.
@@ -435,12 +435,23 @@ class Worker:
 
             task = self._tasks[addr]
 
-            if any(bcb in self._cancelled_task_ids for bcb in task.breadcrumbs):
-                # If any of the selected tasks ancestor tasks are cancelled
-                # then discard this one too. Each breadcrumb (bcb) is a
-                # task address (unique system-wide task id) of an ancestor
-                # task.
-                # TODO: do I need to manually remove addr from self._tasks?
+            if (
+                addr in self._cancelled_task_ids
+                or any(
+                    bcb in self._cancelled_task_ids
+                    for bcb in task.breadcrumbs
+                )
+            ):
+                # If the selected task or any of its ancestor tasks are
+                # cancelled then discard this one too. Each breadcrumb (bcb)
+                # is a task address (unique system-wide task id) of an
+                # ancestor task. This happens when the cancel message
+                # overtook the task's own submit message; the task must
+                # be dropped here or it stays in self._tasks forever.
+                task.cancel()
+                for mailbox_id in task.owned_mailboxes:
+                    self._mailboxes.pop(mailbox_id, None)
+                self._tasks.pop(addr, None)
                 continue
 
             return task
